@@ -76,3 +76,16 @@ Fixpoint verdict_from (i : Z) (h : list case) : Z * Z :=
   | c :: r => let v := verdict c in if fst v =? 0 then verdict_from (i + 1) r else (fst v, i)
   end.
 Definition verdict_hist (h : list case) : Z * Z := verdict_from 0 h.
+
+(* run-length segment of a record: [Rp k v] = k copies of the word v (long flat stretches) *)
+Definition Rp (k v : Z) : list Z := repeat v (Z.to_nat k).
+
+(* several records analysed in ONE AnalyzeData call with the same projectors / basis (a trigger burst):
+   one case per record shown, the matrices written once *)
+Definition KPs (signed : bool) (p : Z) (P B : list (list float)) (acc : bool)
+               (recs : list (list Z * (float * float * float * float * float) * list float * float)) : list case :=
+  map (fun r => let '(d, (ptm, delta, avg, rms, peak), coefs, resid) := r in
+                KP signed p d P B acc ptm delta avg rms peak coefs resid) recs.
+Definition BR (d : list Z) (ptm delta avg rms peak : float) (coefs : list float) (resid : float)
+  : list Z * (float * float * float * float * float) * list float * float :=
+  (d, (ptm, delta, avg, rms, peak), coefs, resid).
